@@ -2,7 +2,7 @@
 //! (2 keys; a few acquisition variants without and with soft limit and with representative callback scripts incl. a
 //! pending callback future, a late panic, an error; insert/remove/drop on every live guard; poll/cancel of every pending
 //! call; one stream created/polled/dropped; lru: clock advance and expiry; count). Stateless depth-first search: every
-//! node re-executes its prefix on a fresh container; every leaf is written as one case. Complements the random
+//! node re-executes its prefix on a fresh container and is written as one case while it runs. Complements the random
 //! generator: the short histories on which most seeded changes fail are covered deterministically, whatever the seed.
 use crate::exec::Harness;
 use crate::proto::Kind;
@@ -16,7 +16,7 @@ pub struct EnumStats {
 
 struct Ctx<'a> {
     kind: Kind,
-    kind_s: &'a str,
+    kind_s: String,
     ops: &'a mut dyn Write,
     out: &'a mut dyn Write,
     max_cases: u64,
@@ -124,29 +124,39 @@ fn rec(cx: &mut Ctx, prefix: &mut Vec<String>, depth: usize) -> std::io::Result<
     }
     // re-execute the prefix on a fresh container. A fresh hash map has a fresh iteration order, so the `reorder` lines
     // (the real order, for the requests that depend on it) are produced here, during the execution that is written out.
+    // Every node is written out as a case while it executes (request flushed before it runs, reply after): if the
+    // implementation hangs or aborts, the files end with the request that did it.
     let mut h = Harness::new();
-    let mut executed: Vec<String> = Vec::with_capacity(prefix.len() + 1);
-    let mut replies = Vec::with_capacity(prefix.len() + 1);
-    let mut last = h.exec_line(&format!("init {}", cx.kind_s));
-    executed.push(format!("init {}", cx.kind_s));
-    replies.push(last.clone());
+    let mut nreq = 0u64;
+    let mut run = |h: &mut Harness, cx: &mut Ctx, line: &str| -> std::io::Result<String> {
+        writeln!(cx.ops, "{line}")?;
+        cx.ops.flush()?;
+        let r = h.exec_line(line);
+        writeln!(cx.out, "{r}")?;
+        cx.out.flush()?;
+        Ok(r)
+    };
+    let init = format!("init {}", cx.kind_s);
+    let mut last = run(&mut h, cx, &init)?;
+    nreq += 1;
     let mut fatal = false;
     for l in prefix.iter() {
         if needs_reorder(cx.kind, l) {
             let order = h.real_keys();
             if !order.is_empty() {
                 let ord = format!("reorder {}", order.iter().map(|k| k.to_string()).collect::<Vec<_>>().join(" "));
-                replies.push(h.exec_line(&ord));
-                executed.push(ord);
+                run(&mut h, cx, &ord)?;
+                nreq += 1;
             }
         }
-        last = h.exec_line(l);
+        last = run(&mut h, cx, l)?;
+        nreq += 1;
         if last.starts_with("panic") || last.starts_with("poisoned") || last.contains("[poisoned]") || last.starts_with("hang") {
             fatal = true;
         }
-        executed.push(l.clone());
-        replies.push(last.clone());
     }
+    cx.stats.cases += 1;
+    cx.stats.requests += nreq;
     let acts = if depth == 0 || fatal {
         Vec::new()
     } else {
@@ -163,15 +173,6 @@ fn rec(cx: &mut Ctx, prefix: &mut Vec<String>, depth: usize) -> std::io::Result<
     };
     drop(h);
     if acts.is_empty() {
-        // a leaf: one case
-        for l in &executed {
-            writeln!(cx.ops, "{l}")?;
-        }
-        for r in &replies {
-            writeln!(cx.out, "{r}")?;
-        }
-        cx.stats.cases += 1;
-        cx.stats.requests += replies.len() as u64;
         return Ok(());
     }
     for a in acts {
@@ -200,7 +201,7 @@ pub fn enumerate(
 ) -> std::io::Result<EnumStats> {
     let mut cx = Ctx {
         kind,
-        kind_s,
+        kind_s: kind_s.to_string(),
         ops,
         out,
         max_cases,
